@@ -4,7 +4,7 @@ import shutil
 import sys
 import tempfile
 
-from core import Check, run_check, watchdog
+from core import tool, Check, run_check, watchdog
 import gen
 from p_graph import tokenize_gfa
 
@@ -19,7 +19,7 @@ def run_view(gaf_lines, gfa_text, fmt, tmp, bgzf=False, gz_graph=False):
     out = os.path.join(tmp, "c.out")
     try:
         with watchdog(60):
-            view.run(gaf, gfa=gfa, output=out, format=fmt)
+            tool("view", gaf_path=gaf, gfa=gfa, output=out, format=fmt)
         return open(out).read().splitlines(), None
     except BaseException as e:  # noqa
         return None, type(e).__name__ + ": " + str(e)[:200]
